@@ -55,11 +55,53 @@ func (m *Mutex) Unlock() {
 	}
 }
 
-// RWMutex is not used by fzf; provided as a plain mutex for completeness.
-type RWMutex struct{ Mutex }
+// RWMutex is not used by fzf at the pinned commit. Under the deterministic scheduler it is a plain
+// mutex (one goroutine runs at a time anyway). In pass-through mode (the -race auxiliary) it is the real
+// thing: an exclusive shim would add happens-before edges between readers and hide exactly the races a
+// reader/writer lock can have (a writer that only took the read lock).
+type RWMutex struct {
+	Mutex
+	rw sync.RWMutex
+}
 
-func (m *RWMutex) RLock()   { m.Lock() }
-func (m *RWMutex) RUnlock() { m.Unlock() }
+func passThrough() bool {
+	s := zsim.Cur()
+	return s != nil && s.PassThrough()
+}
+
+func (m *RWMutex) Lock() {
+	if passThrough() {
+		zsim.Yield("Lock")
+		m.rw.Lock()
+		return
+	}
+	m.Mutex.Lock()
+}
+
+func (m *RWMutex) Unlock() {
+	if passThrough() {
+		m.rw.Unlock()
+		return
+	}
+	m.Mutex.Unlock()
+}
+
+func (m *RWMutex) RLock() {
+	if passThrough() {
+		zsim.Yield("RLock")
+		m.rw.RLock()
+		return
+	}
+	m.Mutex.Lock()
+}
+
+func (m *RWMutex) RUnlock() {
+	if passThrough() {
+		m.rw.RUnlock()
+		return
+	}
+	m.Mutex.Unlock()
+}
 
 // Cond with per-waiter channels: enqueue-then-unlock, so no lost wake-ups.
 type Cond struct {
